@@ -107,6 +107,8 @@ pub struct HostState {
     pub doc_version: u64,
     /// (doc_version, status_ok count) at each successfully answered status
     pub served_versions: Vec<(u64, u64)>,
+    /// (reported channel state, which of wireserver/imds/hostga the reported modes switch on) per successful status answer
+    pub served_states: Vec<(String, String)>,
     pub instance_doc: Value,
 }
 
@@ -147,6 +149,7 @@ pub fn new_state(seed: u64) -> Shared {
         seed,
         doc_version: 0,
         served_versions: Vec::new(),
+        served_states: Vec::new(),
         instance_doc: json!({"compute": {"location": "westus", "name": "simvm", "resourceGroupName": "simrg", "subscriptionId": "00000000-1111-2222-3333-444444444444", "vmId": "02aab8a4-74ef-476e-8182-f6d2ba4166a6", "vmSize": "Standard_A3", "offer": "WindowsServer"}}),
     }))
 }
@@ -597,6 +600,12 @@ fn handle(st: &Shared, host: &'static str, conn: u64, idx: usize, m: Msg) -> Ans
         g.status_ok += 1;
         let v = (g.doc_version, g.status_ok);
         g.served_versions.push(v);
+        // what this answer reported: the channel state as one value, and which endpoints its modes switch on
+        let st = crate::keeper::ref_state(&g.status_doc);
+        let (w, i, hh) = crate::keeper::ref_modes(&g.status_doc);
+        let on = |m: &str| m == "enforce" || m == "audit";
+        let triple = format!("{}{}{}", on(&w) as u8, on(&i) as u8, on(&hh) as u8);
+        g.served_states.push((st, triple));
     }
     if faulted {
         let _ = vrt::try_with(|w| w.count(&format!("fault.host_{}", kind)));
